@@ -911,6 +911,7 @@ func (rn *vRunner) finish(res *vResult, o vObs, start time.Time) *vResult {
 	lab(neverBoots > 0, "vm-never-boots")
 	lab(brokenTold > 0, "vm-reported-broken")
 	lab(m.quotaErrs > 0, "quota-error")
+	lab(rn.sc.HoldRelease > 0, "hold-release-queued")
 	lab(sc.SlowQuota && m.quotaErrs > 0, "quota-waited-out")
 	lab(m.killsSeen > 0, "kill-delivered")
 	lab(m.excused > 0, "excused-inherited-overlap")
